@@ -264,6 +264,18 @@ func cutsweepMain(args []string) int {
 	return 0
 }
 
+// rrWriter sends each record (Write of the JSON, then WriteByte of the line end) to the next shard.
+type rrWriter struct {
+	next func() *bufio.Writer
+	cur  *bufio.Writer
+}
+
+func (r *rrWriter) Write(b []byte) (int, error) {
+	r.cur = r.next()
+	return r.cur.Write(b)
+}
+func (r *rrWriter) WriteByte(c byte) error { return r.cur.WriteByte(c) }
+
 func monotraceMain(args []string) int {
 	fs := flag.NewFlagSet("monotrace", flag.ExitOnError)
 	outDir := fs.String("outdir", "", "trace directory")
@@ -277,12 +289,21 @@ func monotraceMain(args []string) int {
 	names, data := loadCorpus(*corpus)
 	en, ed := extraSamples(rng)
 	names, data = append(names, en...), append(data, ed...)
-	f, err := os.Create(filepath.Join(*outDir, "mono-00.ndjson"))
-	if err != nil {
-		fmt.Fprintln(os.Stderr, err)
-		return 2
+	// series are spread round-robin over several trace files (validated in parallel)
+	const monoShards = 16
+	var mfiles [monoShards]*os.File
+	var mws [monoShards]*bufio.Writer
+	for i := range mfiles {
+		f, err := os.Create(filepath.Join(*outDir, fmt.Sprintf("mono-%02d.ndjson", i)))
+		if err != nil {
+			fmt.Fprintln(os.Stderr, err)
+			return 2
+		}
+		mfiles[i] = f
+		mws[i] = bufio.NewWriterSize(f, 1<<20)
 	}
-	w := bufio.NewWriterSize(f, 1<<20)
+	nseries := 0
+	w := &rrWriter{next: func() *bufio.Writer { nseries++; return mws[nseries%monoShards] }}
 	var limits []int
 	for l := 1; l <= 700; l++ {
 		limits = append(limits, l)
@@ -417,8 +438,10 @@ func monotraceMain(args []string) int {
 			rep.sample(map[string]any{"sample": names[i], "tails": []string{"text", "nul", "random", "nl", "dash"}, "limits": len(limits) + 1})
 		}
 	}
-	w.Flush()
-	f.Close()
+	for i := range mfiles {
+		mws[i].Flush()
+		mfiles[i].Close()
+	}
 	mimetype.SetLimit(3072)
 	roots = int64(len(rootsSeen))
 	rep.Evaluations = n
